@@ -163,7 +163,7 @@ func init() {
 		ID:       "C06",
 		Title:    "ExtractLicenses returns exactly the distinct terms of the expression",
 		Explorer: "E1 bounded-exhaustive tree enumeration, compositional oracle over the implementation's own single-term extraction + single-term canonical-form checks over all ids",
-		Rule: "trees (three renderings each): every shape and AND/OR labelling up to 8 (thorough 9) all-distinct leaves; the C01 spaces S1 (<= N leaves over 4 atoms, two renderings) and S2 (<= 3 leaves over 12 rich terms + case re-spellings): set(Extract(e)) = union Extract(leaf), no duplicates, Satisfies(e, Extract(e)); " +
+		Rule: "trees (three renderings each): every shape and AND/OR labelling up to 8 (thorough 9) all-distinct leaves; the C01 spaces S1 (<= N leaves over 4 atoms, two renderings) and S2 (<= 3 leaves over 12 rich terms + case re-spellings) and S5 (<= 3 leaves over the 5-7 ways of writing one license: x, x+, x-only, x-or-later, x WITH e, x+ WITH e, x WITH f; 4 licenses): set(Extract(e)) = union Extract(leaf), no duplicates, Satisfies(e, Extract(e)); " +
 			"terms: every listed id in every valid spelling (and with WITH) + reference terms: exactly one element, valid, fixed point, mutual satisfaction, list casing, '+' and exception kept; " +
 			"state = expression or term; non-trivial = expressions with >= 2 distinct terms containing an OR (where expansion can lose terms) and all single-term checks with a suffix/+/WITH",
 		Assumptions: []string{"the canonical spelling of a leaf is delegated to the single-term call, which is itself checked against R-term's normaliser for every listed id"},
@@ -308,6 +308,21 @@ func c06Run(c *Ctx) {
 			}
 		}
 	}
+	// every way of writing ONE license in one expression (x next to x+, x WITH e, x-only ...)
+	var s5 []map[string]any
+	for _, x := range variantIDs {
+		v := idVariants(x)
+		s5 = append(s5, map[string]any{"license": x, "terms": v})
+		vt := TreesUpTo(3, len(v))
+		for n := 1; n <= 3; n++ {
+			for _, t := range vt[n] {
+				if !treeCase(t, v) {
+					return
+				}
+			}
+		}
+	}
+	c.Bound("S5", map[string]any{"sets": s5, "max_leaves": 3})
 	// single terms: every listed id in every spelling, with and without exception; references
 	var terms []string
 	for _, id := range T().AllLicenseIDs() {
